@@ -111,6 +111,26 @@ impl SimSource {
         (self.bits + 7) / 8
     }
 
+    /// The owner of the source reads `n` blocks itself (into a throw-away buffer) before anybody else gets
+    /// the source; the hand-over counters then restart, so that they describe what the NEXT consumer gets.
+    pub fn pre_read(&mut self, n: usize, block_size: usize) {
+        struct Scratch;
+        impl Fill for Scratch {
+            fn fill_interleaved(&mut self, _: &[i32]) -> Result<(), SourceError> {
+                Ok(())
+            }
+            fn fill_le_bytes(&mut self, _: &[u8], _: usize) -> Result<(), SourceError> {
+                Ok(())
+            }
+        }
+        for _ in 0..n {
+            let _ = self.read_samples(block_size, &mut Scratch);
+        }
+        self.handed_len = 0;
+        self.handed_hash = <md5::Md5 as md5::Digest>::new();
+        self.reported = 0;
+    }
+
     /// MD5 of everything handed over so far (see `handed_len`).
     pub fn handed_md5(&self) -> [u8; 16] {
         use md5::Digest;
